@@ -28,6 +28,19 @@ pub struct SavedView {
     pub stale_scan: Vec<String>, // every token-looking string found anywhere in the package
 }
 
+/// The text a token number stands for.  Ordinary tokens are `tK<n>`.  Tokens 900.. are "near-collision"
+/// families of long texts of equal length that differ in a few characters only — at the very end behind a
+/// 1100-character common head (900..909), at the very start before a common tail (910..919), in the
+/// middle (920..929): an interning key that does not depend on the whole text merges them.
+pub fn tok_text(n: usize) -> String {
+    match n {
+        900..=909 => format!("{}tK{}", "L".repeat(1100), n),
+        910..=919 => format!("tK{}{}", n, "M".repeat(1100)),
+        920..=929 => format!("{}tK{}{}", "A".repeat(700), n, "B".repeat(700)),
+        _ => format!("tK{}", n),
+    }
+}
+
 pub fn view_saved(buf: &[u8]) -> Result<SavedView, String> {
     let parts = unzip_all(buf)?;
     let mut sst = vec![];
@@ -43,7 +56,7 @@ pub fn view_saved(buf: &[u8]) -> Result<SavedView, String> {
             let r = &rest[i + 2..];
             let n: String = r.chars().take_while(|c| c.is_ascii_digit()).collect();
             if !n.is_empty() {
-                tokens.insert(format!("tK{}", n));
+                tokens.insert(tok_text(n.parse::<usize>().unwrap_or(0)));
             }
             rest = &rest[i + 2..];
         }
@@ -112,7 +125,7 @@ pub fn exec(out: &mut Out, st: &mut State, line: &str) -> (String, bool) {
             let (w, s) = (n(2), n(3));
             let r = guard(|| {
                 let o = st.objs[w].as_mut().unwrap();
-                o.book.get_sheet_mut(&s).unwrap().get_cell_mut((n(4) as u32, n(5) as u32)).set_value_string(format!("tK{}", n(6)));
+                o.book.get_sheet_mut(&s).unwrap().get_cell_mut((n(4) as u32, n(5) as u32)).set_value_string(tok_text(n(6)));
                 o.raw[s] = None;
             });
             (if r.is_ok() { "ok" } else { "panic" }.into(), r.is_ok())
@@ -315,7 +328,9 @@ pub fn run(out: &mut Out, tier: Tier, seed: u64, replay: Option<Vec<String>>) {
                 let ns = st.objs[w].as_ref().unwrap().raw.len();
                 let s = rng.below(ns as u64) as usize;
                 match rng.below(100) {
-                    0..=34 => format!("c12 set {} {} {} {} {}", w, s, rng.range(1, 3), rng.range(1, 4), rng.range(1, 12)),
+                    0..=30 => format!("c12 set {} {} {} {} {}", w, s, rng.range(1, 3), rng.range(1, 4), rng.range(1, 12)),
+                    // long texts that differ only at the end / start / middle (see `tok_text`)
+                    31..=34 => format!("c12 set {} {} {} {} {}", w, s, rng.range(1, 3), rng.range(1, 4), 900 + 10 * rng.below(3) + rng.below(3)),
                     35..=44 => format!("c12 del {} {} {} {}", w, s, rng.range(1, 3), rng.range(1, 4)),
                     45..=49 => format!("c12 remrow {} {} {} {}", w, s, rng.range(1, 4), rng.range(1, 2)),
                     50..=54 => format!("c12 addsheet {} {}", w, rng.below(1000)),
